@@ -76,6 +76,10 @@ func runC04(r *engine.Run) {
 	r.Rule("DOM-recorded", "in ChangeCollector.AddChange every store into Changes is keyed by the new node's hash and holds a change whose New field was set to the new node, and every return is reached through such a store except the cancel-out (new node equal to the Old of the chain it closes, bytes.Equal tested true)")
 	r.Rule("AGREE-nostamp", "see C03: mergeChanges installs the nodes of the child's change set without re-stamping them (the installer it calls in the replay loop sets no origin/version on the node): a node the child took over from another version keeps the hash the child's root refers to, and the donor store's object is not written")
 	r.Rule("DOM-mergeall", "see C03: mergeChanges replays every change of the child through insertNode (a skipped change is missing from the block's change set and hence from the save)")
+	r.Rule("ORDER-stamp", "see C02: insertNode stamps the trie version, then hashes, then stores under that hash (a node stored under a hash computed before the stamp is missing under the key the saved root refers to)")
+	r.Rule("DOM-merge", "see C03: a stale child is never merged (its nodes refer to nodes a sibling replaced; after the save the root has missing nodes)")
+	r.Rule("LOCK-mpt", "see C16: root, the stores' maps and level links and the collector's maps are accessed only with their owner's mutex held in the required mode (a writer under the read lock, or on a root read outside the lock, loses another writer's update)")
+	r.Rule("ORDER-critical", "see C16: Insert, Delete, MergeChanges and MergeDB are one critical section each, from the first read of the root to its last update")
 	r.NotDec = append(r.NotDec, "completeness of the change set for every history (needs the map semantics of C01)", "RocksDB's own crash behaviour")
 	whoCollect(r)
 	orderKeySave(r)
@@ -87,6 +91,9 @@ func runC04(r *engine.Run) {
 	errGuard(r, "ERR-guard", "ERR-dropped", funcsOfPkg(r, pkgUtil), 20)
 	domRecorded(r, "DOM-recorded")
 	domMergeAll(r, "DOM-mergeall")
+	orderStamp(r, "ORDER-stamp")
+	domMerge(r)
+	mptLockDiscipline(r)
 }
 
 func whoCollect(r *engine.Run) {
